@@ -89,6 +89,21 @@ CLAIMED = {
   text="Structure of the posting→script→transaction path for every list of postings: client text never becomes script text (clean-provenance of every builder write; generated names are counters); one `send` per posting, in the parameter's order, on every path through the loop; source/destination/monetary lines are looked up by the current posting's own fields with the registration's key format; registered values are the posting's fields; vars exported name→value; metadata/reference/timestamp passed by name; vm.Run and OP_SEND copy postings field-by-field and position-by-position; v1 validates before translating, variables are validated before resolution. That the VM turns each generated send into exactly that posting is not decided (C08's undecided part).",
   design_ref="DESIGN.md §3 C09",
   technique="clean-provenance dataflow + per-iteration path state machine + field-role tables over SSA (static analysis)"),
+ "C01": dict(
+  category="other",
+  text="The running-balance inequality itself is numerical and NOT decided. Decided necessary conditions, for all programs at once: the only balance-test-free debit (OP_TAKE_ALWAYS) is emitted only under a non-nil fallback whose address was just pushed, and a fallback exists only for @world or `allowing unbounded overdraft`; withdrawAlways is reachable only from that opcode; Machine.Balances is written only by its owners (inside tick only by OP_SAVE); money values are immutable (no in-place big.Int mutation on non-fresh receivers in internal/machine/**); a failing Execute yields no result, a short funding is ErrInsufficientFund; OP_TAKE_MAX refuses negative amounts before taking.",
+  design_ref="DESIGN.md §3 C01",
+  technique="path state machines with edge facts over SSA, who-may-write, receiver-freshness provenance (static analysis)"),
+ "C08": dict(
+  category="other",
+  text="Compiler/source equivalence is translation validation and is NOT decided. Decided: cached programs are never mutated (no element store / map update / append / copy / delete / sort on values derived from Program fields outside the compiler; shared money immutable); the cache key digests the whole script and the value stored under it is the program compiled from that script; opcode tables agree (constants = tick cases = OpcodeName cases = emitted bytes; operand width written = width consumed); the static type of every visited expression is compared or propagated at each call site (frozen polymorphic exceptions).",
+  design_ref="DESIGN.md §3 C08",
+  technique="derived-value alias dataflow over SSA + table extraction + unchecked-result rule (static analysis)"),
+ "C12": dict(
+  category="other",
+  text="Sound panic-freedom is out of reach and NOT claimed. Decided clauses named by the property's mechanisms: writes into per-account balance maps go through checked lookups (frozen exceptions repay/ResolveBalances); the balance-variable registry is keyed by resource index; the VM terminates (P only advances by positive constants, every unfinished tick advanced P, Execute stops when finished, each ResolveResources iteration appends exactly one resource); no package-level state is written while compiling/running; shared programs are not mutated; compile-time type checks are applied. Explicit panics reachable in the machine packages are listed in the evidence (informational).",
+  design_ref="DESIGN.md §3 C12",
+  technique="checked-access dominance + progress path machine + who-may-write over SSA (static analysis)"),
 }
 
 NOT_APPLICABLE = {
